@@ -101,7 +101,10 @@ def direct_traces(rng, quick=True):
 
 # ---- engine-level ------------------------------------------------------------------------
 
-def engine_traces(cls, listing, other_listing, diag, seed=0, chains=2, slow=(8, 10), companion="mm"):
+def engine_traces(cls, listing, other_listing, diag, seed=0, chains=2, slow=(8, 10), companion="mm", tail_posterior=True,
+                  stepwise=False):
+    """tail_posterior=False: the schedule ends with the last slow-adaptation epoch; stepwise: the epochs are appended and
+    sampled one at a time (every epoch is the last configured one when it ends)."""
     """A real engine with two mass-matrix kernels over non-alphabetical keys; after each
     slow epoch the kernel's matrix (from store_kernel_states) is compared with that
     epoch's stored history of the kernel's own keys."""
@@ -125,12 +128,22 @@ def engine_traces(cls, listing, other_listing, diag, seed=0, chains=2, slow=(8, 
     b.add_kernel(k2)
     cfgs = [EpochConfig(EpochType.INITIAL_VALUES, 1, 1, None), EpochConfig(EpochType.FAST_ADAPTATION, 4, 1, None)]
     cfgs += [EpochConfig(EpochType.SLOW_ADAPTATION, d, 1, None) for d in slow]
-    cfgs += [EpochConfig(EpochType.POSTERIOR, 4, 1, None)]
-    b.set_epochs(cfgs)
+    if tail_posterior:
+        cfgs += [EpochConfig(EpochType.POSTERIOR, 4, 1, None)]
+    # (stepwise: the builder needs one real epoch for its chunk length - with the initial epoch alone it is 0 and a
+    # later appended epoch cannot be sampled, ZeroDivisionError; G6, not a listed property)
+    b.set_epochs(cfgs[:2] if stepwise else cfgs)
     b.store_kernel_states = True
     b.show_progress = False
     eng = b.build()
-    eng.sample_all_epochs()
+    if stepwise:
+        eng.sample_next_epoch()
+        eng.sample_next_epoch()
+        for cfg in cfgs[2:]:
+            eng.append_epoch(cfg)
+            eng.sample_next_epoch()
+    else:
+        eng.sample_all_epochs()
     res = eng.get_results()
     samples = res.positions.combine_all().unwrap()  # dict name -> [chain, time, ...]
     kstates = res.kernel_states.unwrap().combine_all().unwrap()  # list per kernel
@@ -154,8 +167,9 @@ def engine_traces(cls, listing, other_listing, diag, seed=0, chains=2, slow=(8, 
                     arr = np.asarray(samples[n])[c, lo:hi].reshape(hi - lo, -1)
                     for o in range(arr.shape[1]):
                         cols[(rank[n], o + 1)] = arr[:, o]
-                # matrix in force during the first transition of the *next* epoch
-                imm = imm_all[c, hi]
+                # matrix in force during the first transition of the *next* epoch (after the last epoch: the engine's
+                # final kernel state)
+                imm = imm_all[c, hi] if hi < imm_all.shape[1] else np.asarray(eng._kernel_states[ki].inverse_mass_matrix)[c]
                 ev.append({"ev": "tune", "flat": flat, "epoch": ei,
                            "hist": [[f32s(v) for v in cols[cc]] for cc in fo],
                            "imm": [f32s(v) for v in imm] if diag else [[f32s(v) for v in row] for row in imm]})
